@@ -5,7 +5,7 @@ From Hermes Require Export Model.BusLog.
    oldest retained offset (0 if none) and next offset to be written (0 if unknown) *)
 (* bc_purges: for each BOpen, in order, read by plain SQL: the rows before the open as
    (offset, age in hundredths of a day at the moment of the open) and the offsets after it *)
-Record bcase := BCase { bc_ops : list bop; bc_obs : list bout; bc_truth : list (Z * Z);
+Record bcase := BCase { bc_ops : list bop; bc_obs : list bout; bc_truth : list (Z * Z * bool);
                         bc_purges : list (list (Z * Z) * list Z) }.
 
 Definition seekres_eqb (a b : seekres) : bool :=
@@ -64,15 +64,17 @@ Fixpoint o18 (ops : list bop) (obs : list bout) (sent : Z) (last_delivered : opt
       end
   | _, _ => true
   end.
-(** seeks are accepted exactly inside [oldest retained (or next when empty), next] *)
-Fixpoint o18_seek (ops : list bop) (obs : list bout) (truth : list (Z * Z)) : bool :=
+(** seeks are accepted exactly inside [oldest retained (or next when empty), next], and only
+    when the event still exists or the offset is the next one to be written (third component of
+    the ground truth: the sought offset is in the table) *)
+Fixpoint o18_seek (ops : list bop) (obs : list bout) (truth : list (Z * Z * bool)) : bool :=
   match ops, obs with
   | BSeek o :: r, OSeek res :: ro =>
       match truth with
-      | (lo, nxt) :: rt =>
+      | (lo, nxt, present) :: rt =>
           (if nxt =? 0 then negb (seekres_eqb res SeekOk)
            else let low := if lo =? 0 then nxt else lo in
-                Bool.eqb (seekres_eqb res SeekOk) ((low <=? o) && (o <=? nxt)))
+                Bool.eqb (seekres_eqb res SeekOk) ((low <=? o) && (o <=? nxt) && (present || (o =? nxt))))
           && o18_seek r ro rt
       | [] => true
       end
